@@ -171,6 +171,9 @@ pub enum Case {
     Config { which: usize },
     /// every libc call of the baseline trace x alternative
     Libc { key: String, alt: Alt },
+    /// crash context whose instruction pointer lies `off` bytes into the inaccessible anonymous page that directly
+    /// follows a file-backed executable mapping (what the linker's reserved range looks like)
+    CtxAfterModule { off: usize, opts: u8 },
     /// the file behind the dumper's keyed open() has hostile content (redirected at the libc boundary)
     ProcContent { key: String, content: usize },
     /// the target is SIGKILLed just before the dumper's keyed libc call
@@ -192,6 +195,7 @@ impl Case {
             Case::Config { which } => json!({"family": "config", "which": which}),
             Case::Libc { key, alt } => json!({"family": "libc", "key": key, "alt": format!("{alt:?}")}),
             Case::Killed { key, n } => json!({"family": "killed", "key": key, "n": n}),
+            Case::CtxAfterModule { off, opts } => json!({"family": "ctx-after-module", "off": off, "opts": opts}),
             Case::ProcContent { key, content } => json!({"family": "file-content", "key": key, "content": content}),
             Case::ElfInMemory { image, field, value } => json!({"family": "elf-in-memory", "image": image, "field": field, "value": value}),
         }
@@ -209,6 +213,7 @@ impl Case {
             "config" => Case::Config { which: g("which")? },
             "elf-in-memory" => Case::ElfInMemory { image: g("image")?, field: g("field")?, value: g("value")? },
             "file-content" => Case::ProcContent { key: v.get("key")?.as_str()?.to_string(), content: g("content")? },
+            "ctx-after-module" => Case::CtxAfterModule { off: g("off")?, opts: g("opts")? as u8 },
             "killed" => Case::Killed { key: v.get("key")?.as_str()?.to_string(), n: g("n")? },
             "libc" => {
                 let alt = v.get("alt")?.as_str()?;
@@ -229,6 +234,7 @@ impl Case {
             Case::Config { .. } => "config",
             Case::Libc { .. } => "libc",
             Case::Killed { .. } => "killed",
+            Case::CtxAfterModule { .. } => "ctx",
             Case::ProcContent { .. } => "file-content",
             Case::ElfInMemory { .. } => "elf-in-memory",
         }
@@ -425,6 +431,20 @@ pub fn run_standalone(c: &Case) -> Verdict {
             let mut o = DumpOpts::default();
             opts_bits(&mut o, *opts, &h);
             total_dump(&h.b.p, &o, vec![], &format!("live thread with rsp={v:#x} opts={opts}"))
+        }
+        Case::CtxAfterModule { off, opts } => {
+            let mut h = make_host();
+            // a mapfile'd library sits inside a PROT_NONE reservation: an inaccessible anonymous page follows it directly
+            let lib = h.b.p.mapfile(format!("{FIX}/libfix_sha1.so").as_bytes(), 0, 8192, "rx").unwrap_or(0);
+            h.b.p.quiesce();
+            if lib == 0 {
+                return Verdict { kind: 0, fails: vec![], structure: vec![] };
+            }
+            let ip = lib + 8192 + *off as u64;
+            let mut o = DumpOpts::default();
+            o.crash = Some(CrashSpec { tid: h.b.p.pid, signo: 11, code: 1, addr: ip, devs: vec![(DIM_RSP, h.addr.main_stack.1 - 0x1800), (DIM_RIP, ip)] });
+            opts_bits(&mut o, *opts, &h);
+            total_dump(&h.b.p, &o, vec![], &format!("crash ip {off} bytes into the inaccessible page behind a mapped library"))
         }
         Case::Killed { key, n } => {
             let b = build(&Shape::threads(*n));
@@ -639,6 +659,11 @@ pub fn run_real_cases(thorough: bool) -> Vec<(Case, Verdict)> {
         };
         for a in alts {
             cases.push(Case::Libc { key: c.key.clone(), alt: a });
+        }
+    }
+    for off in [0usize, 1, 127, 128, 129, 255, 256, 2048, 4095] {
+        for opts in [0u8, 1] {
+            cases.push(Case::CtxAfterModule { off, opts });
         }
     }
     // hostile content behind every file the dumper opens
